@@ -9,7 +9,7 @@ let () =
    | "schedcheck" -> Schedobs.run_check st b
    | "outcheck" -> Outcheck.run st b
    | "trans" -> Trans.run st b
-   | "opscheck" -> Schedobs.run_check st b
+   | "opscheck" -> Opscheck.run st b
    | _ -> prerr_endline ("unknown command " ^ cmd); exit 2);
   let oc = open_out Sys.argv.(3) in
   Buffer.output_buffer oc b; close_out oc
